@@ -286,6 +286,7 @@ pub struct Outcome {
   pub events: usize,
   pub joins_or_leaves_between_emissions: bool,
   pub nested_used: bool,
+  pub joined_during_terminal: bool,
 }
 
 /// run a history against the real subject and, in lock step, against the
@@ -310,6 +311,7 @@ pub fn exec<S: Subj>(h: &[Hop]) -> Result<Outcome, String> {
     let mut emissions = 0;
     let mut change_after_emission = false;
     let mut nested_used = false;
+    let mut joined_during_terminal = false;
     // nested subscriptions requested: (armed on k, new id)
     let armed: Rc<std::cell::RefCell<Vec<usize>>> = Rc::new(Default::default());
     let armed_pair: Rc<std::cell::RefCell<Vec<usize>>> = Rc::new(Default::default());
@@ -345,7 +347,10 @@ pub fn exec<S: Subj>(h: &[Hop]) -> Result<Outcome, String> {
             set_local_cb(
               id,
               Rc::new(move |n: &N| {
-                if matches!(n, N::Next(_)) && armed2.borrow().contains(&kk) {
+                // an armed subscriber that has not received an item yet when the terminal reaches it
+                // subscribes from inside its terminal callback (the newcomer is owed nothing)
+                if armed2.borrow().contains(&kk) {
+                  let _ = n;
                   armed2.borrow_mut().retain(|x| *x != kk);
                   let (u, c) = s2.sub(100 + kk as u32, &log2);
                   if pair {
@@ -405,6 +410,9 @@ pub fn exec<S: Subj>(h: &[Hop]) -> Result<Outcome, String> {
           }
         }
         Hop::Err => {
+          if order.iter().any(|i| active[*i] && armed.borrow().contains(i)) {
+            joined_during_terminal = true;
+          }
           let mut cur = 7;
           for r in order.iter().cloned().filter(|i| active[*i]).collect::<Vec<_>>() {
             expected[r].push(N::Err(cur));
@@ -417,6 +425,9 @@ pub fn exec<S: Subj>(h: &[Hop]) -> Result<Outcome, String> {
           finished = true;
         }
         Hop::Complete => {
+          if order.iter().any(|i| active[*i] && armed.borrow().contains(i)) {
+            joined_during_terminal = true;
+          }
           for r in (0..active.len()).filter(|i| active[*i]).collect::<Vec<_>>() {
             expected[r].push(N::Complete);
             active[r] = false;
@@ -470,6 +481,7 @@ pub fn exec<S: Subj>(h: &[Hop]) -> Result<Outcome, String> {
       events,
       joins_or_leaves_between_emissions: change_after_emission,
       nested_used,
+      joined_during_terminal,
     }
   })
 }
@@ -575,6 +587,9 @@ pub fn run(cfg: &Cfg, rep: &mut Report) {
       }
       if out.nested_used {
         rep.count("histories_with_subscribe_inside_callback", 1);
+      }
+      if out.joined_during_terminal {
+        rep.count("histories_with_subscribe_inside_a_terminal_callback", 1);
       }
     }
     if let Some((k, detail)) = judge(&o) {
